@@ -161,9 +161,9 @@ fn c05_jobs(tier: Tier) -> Vec<SeqJob> {
                         depth1: if pi == 0 { d1 } else { 2 },
                         depth2: if shards <= 2 { d2 } else { d2.min(5) },
                         max_states: 20_000,
-                        resize_any_depth: if tier == Tier::Quick { 2 } else { 3 },
-                        resize_last_depth: if tier == Tier::Quick { 3 } else { 4 },
-                        resize2_depth: if tier == Tier::Quick { 2 } else { 4 },
+                        resize_any_depth: 99,
+                        resize_last_depth: 99,
+                        resize2_depth: 99,
                         epilogue: true,
                     });
                 }
@@ -225,9 +225,9 @@ fn c13_jobs(tier: Tier) -> Vec<SeqJob> {
                         depth1: d1,
                         depth2: if shards <= 2 { d2 } else { d2.min(5) },
                         max_states: 20_000,
-                        resize_any_depth: if tier == Tier::Quick { 2 } else { 3 },
-                        resize_last_depth: if tier == Tier::Quick { 3 } else { 4 },
-                        resize2_depth: if tier == Tier::Quick { 2 } else { 4 },
+                        resize_any_depth: 99,
+                        resize_last_depth: 99,
+                        resize2_depth: 99,
                         epilogue: true,
                     });
                 }
@@ -247,8 +247,8 @@ fn c13_jobs(tier: Tier) -> Vec<SeqJob> {
                     depth1: d1,
                     depth2: 0,
                     max_states: 0,
-                    resize_any_depth: if tier == Tier::Quick { 2 } else { 3 },
-                    resize_last_depth: if tier == Tier::Quick { 3 } else { 4 },
+                    resize_any_depth: 99,
+                    resize_last_depth: 99,
                     resize2_depth: 0,
                     epilogue: true,
                 });
@@ -339,9 +339,9 @@ fn c14_jobs(tier: Tier) -> Vec<SeqJob> {
                     depth1: if pi <= 1 { d1 } else { 2 },
                     depth2: d2,
                     max_states: 30_000,
-                    resize_any_depth: if tier == Tier::Quick { 2 } else { 3 },
-                    resize_last_depth: if tier == Tier::Quick { 3 } else { 4 },
-                    resize2_depth: if tier == Tier::Quick { 2 } else { 4 },
+                    resize_any_depth: 99,
+                    resize_last_depth: 99,
+                    resize2_depth: 99,
                     epilogue: false,
                 });
             }
@@ -441,9 +441,9 @@ fn c18_jobs(tier: Tier) -> Vec<SeqJob> {
                         depth1: if pi == 0 { d1 } else { 2 },
                         depth2: if shards == 1 { d2 } else { d2.min(5) },
                         max_states: 20_000,
-                        resize_any_depth: if tier == Tier::Quick { 2 } else { 3 },
-                        resize_last_depth: if tier == Tier::Quick { 3 } else { 4 },
-                        resize2_depth: if tier == Tier::Quick { 2 } else { 4 },
+                        resize_any_depth: 99,
+                        resize_last_depth: 99,
+                        resize2_depth: 99,
                         epilogue: true,
                     });
                 }
